@@ -48,9 +48,24 @@ class Defs:
                     for x in ast.walk(t):
                         if isinstance(x, ast.Name) and isinstance(x.ctx, ast.Store):
                             self.count[x.id] = self.count.get(x.id, 0) + 2
+                        # `acc[k] = v`: acc is an accumulator, its definition is not its value at the use
+                        if isinstance(x, ast.Subscript) and isinstance(x.value, ast.Name) and isinstance(x.ctx, ast.Store):
+                            self.count[x.value.id] = self.count.get(x.value.id, 0) + 2
+            if isinstance(n, ast.Call) and isinstance(n.func, ast.Attribute) and n.func.attr in self._MUTATORS and isinstance(n.func.value, ast.Name):
+                self.count[n.func.value.id] = self.count.get(n.func.value.id, 0) + 2  # mutated in place: an accumulator
+            if isinstance(n, (ast.AugAssign, ast.Delete)):
+                for t in ([n.target] if isinstance(n, ast.AugAssign) else n.targets):
+                    if isinstance(t, ast.Subscript) and isinstance(t.value, ast.Name):
+                        self.count[t.value.id] = self.count.get(t.value.id, 0) + 2
+
+    _EFFECTFUL = {"pop", "popitem", "next", "send", "read", "readline", "readlines", "__next__", "popleft", "get_nowait", "recv"}
+    _MUTATORS = {"add", "append", "extend", "update", "insert", "remove", "discard", "clear", "setdefault", "pop", "popitem", "sort", "reverse", "appendleft"}
 
     def _add(self, name: str, value: ast.AST) -> None:
-        self.count[name] = self.count.get(name, 0) + 1
+        from .loader import dotted
+
+        effectful = any(isinstance(c, ast.Call) and ((isinstance(c.func, ast.Attribute) and c.func.attr in self._EFFECTFUL) or dotted(c.func) in ("next", "input")) for c in ast.walk(value))
+        self.count[name] = self.count.get(name, 0) + (2 if effectful else 1)  # re-evaluating an effectful definition is not the same value
         self.value[name] = value
 
     def unique(self, name: str) -> ast.AST | None:
